@@ -62,6 +62,9 @@ theorem At.union_kids {path ufs mode n md p fs types offs cur}
     (hg : GoodH (.union p fs types offs cur) (.union ufs mode) n md)
     (h : At path (.union ufs mode) n md (.union p fs types offs cur)) : KidsU path fs ufs := by
   obtain ⟨b0, h0, ht⟩ := h
+  cases mode with
+  | sparse => simp [newDT, ctx_ok, fail] at h0
+  | dense =>
   simp only [newDT] at h0
   obtain ⟨bl0, hbl0, h0⟩ := (Build.bind_ok _ _ _).1 h0
   cases h0
